@@ -1,4 +1,5 @@
 import PQ.Lemmas.PopIfHistory
+import PQ.Props.C10
 /-!
 # C02 — supplement: the conditional pops and `peek_*_mut` after any history (lemmas in `Lemmas/PopIfHistory.lean`, which
 builds on `Props/C02.lean`)
@@ -15,7 +16,64 @@ theorem C02_conditional_after_history : type_of% @pih_next_after_history_new := 
 /-- … and an `FnMut` predicate is consulted exactly once, on that entry (never on an empty queue) -/
 theorem C02_predicate_called_once : type_of% @pih_calls_after_history := @pih_calls_after_history
 
+section OrderFree
+open PQ.Crash
+variable {P : Type} [LT P] [DecidableLT P] [LE P] [Std.IsLinearPreorder P] [Std.LawfulOrderLT P]
+
+/-- `peek_min` / `peek_max` on ANY well-formed store (ordered or not — after a caught panic or a leaked `iter_mut` guard C10
+leaves the order unspecified): both return normally, `None` iff the map is empty, otherwise an entry that IS stored; this is
+what the check's judge demands of the post-panic histories of the `post_crash` stream -/
+theorem C02_peeks_of_wf {s : Store P} (h : s.WF) :
+    ∃ rmin k rmax, DQ.peekMin s = .ok rmin ∧ DQ.peekMax s = .ok (s.tick k, rmax) ∧ k ≤ 1 ∧
+      (rmin = none ↔ s.map.size = 0) ∧ (rmax = none ↔ s.map.size = 0) ∧
+      (∀ e, rmin = some e → s.abs e.1.key = some e) ∧ (∀ e, rmax = some e → s.abs e.1.key = some e) := by
+  obtain ⟨rmin, h1, h1z, h1p⟩ := DQ.peekMin_safe h
+  obtain ⟨k, rmax, h2, hk, h2z, h2p⟩ := DQ.peekMax_safe h
+  have hm : s.map.size = s.size := h.map_size
+  refine ⟨rmin, k, rmax, h1, h2, hk, ⟨fun hn => ?_, fun hz => h1z (by omega)⟩, ⟨fun hn => ?_, fun hz => h2z (by omega)⟩,
+    fun e he => ?_, fun e he => ?_⟩
+  · rcases Nat.eq_zero_or_pos s.size with hz | hp
+    · omega
+    · obtain ⟨e, he, _⟩ := h1p hp; rw [hn] at he; cases he
+  · rcases Nat.eq_zero_or_pos s.size with hz | hp
+    · omega
+    · obtain ⟨e, he, _⟩ := h2p hp; rw [hn] at he; cases he
+  · rcases Nat.eq_zero_or_pos s.size with hz | hp
+    · rw [h1z hz] at he; cases he
+    · obtain ⟨e', he', ha⟩ := h1p hp; rw [he] at he'; cases he'; exact ha
+  · rcases Nat.eq_zero_or_pos s.size with hz | hp
+    · rw [h2z hz] at he; cases he
+    · obtain ⟨e', he', ha⟩ := h2p hp; rw [he] at he'; cases he'; exact ha
+
+/-- **after a caught `Ord::cmp` panic at ANY comparison of ANY operation, and after ANY continuation** (leaked guards
+included) both peeks answer `None` iff nothing is stored and otherwise report stored entries -/
+theorem C02_peeks_after_crash_history (fuse : Nat) {q : Q P} {op : Op P} (hq : QWF q) (hl : op.Legal) (q' : Q P)
+    (hc : stepF fuse q op = .error (.crashed q') ∨ (stepF fuse q op = .error .crashedNew ∧ q' = q))
+    (ops : List (Op P)) (hops : ∀ o ∈ ops, o.Legal) :
+    ∃ q'' outs, run q' ops = .ok (q'', outs) ∧
+      ∃ rmin k rmax, DQ.peekMin q''.s = .ok rmin ∧ DQ.peekMax q''.s = .ok (q''.s.tick k, rmax) ∧ k ≤ 1 ∧
+        (rmin = none ↔ q''.s.map.size = 0) ∧ (rmax = none ↔ q''.s.map.size = 0) ∧
+        (∀ e, rmin = some e → q''.s.abs e.1.key = some e) ∧ (∀ e, rmax = some e → q''.s.abs e.1.key = some e) := by
+  obtain ⟨q'', outs, hr, hw⟩ := C10_crash_then_any_history fuse hq hl q' hc ops hops
+  exact ⟨q'', outs, hr, C02_peeks_of_wf hw⟩
+
+/-- … and after a panicking setter / predicate / source iterator (which may have written a priority first) -/
+theorem C02_peeks_after_callback_crash_history {q : Q P} {op : Op P} (k : Nat) (w : Option P) (hq : QWF q) (q' : Q P)
+    (hc : stepCbW k w q op = .error (.crashed q') ∨ (stepCbW k w q op = .error .crashedNew ∧ q' = q))
+    (ops : List (Op P)) (hops : ∀ o ∈ ops, o.Legal) :
+    ∃ q'' outs, run q' ops = .ok (q'', outs) ∧
+      ∃ rmin k rmax, DQ.peekMin q''.s = .ok rmin ∧ DQ.peekMax q''.s = .ok (q''.s.tick k, rmax) ∧ k ≤ 1 ∧
+        (rmin = none ↔ q''.s.map.size = 0) ∧ (rmax = none ↔ q''.s.map.size = 0) ∧
+        (∀ e, rmin = some e → q''.s.abs e.1.key = some e) ∧ (∀ e, rmax = some e → q''.s.abs e.1.key = some e) := by
+  obtain ⟨q'', outs, hr, hw⟩ := (C10_callback_crash_then_any_history k w hq q' hc).1 ops hops
+  exact ⟨q'', outs, hr, C02_peeks_of_wf hw⟩
+
+end OrderFree
+
 end PQ
 
 #print axioms PQ.C02_conditional_after_history
 #print axioms PQ.C02_predicate_called_once
+#print axioms PQ.C02_peeks_of_wf
+#print axioms PQ.C02_peeks_after_crash_history
+#print axioms PQ.C02_peeks_after_callback_crash_history
